@@ -1,6 +1,7 @@
 // Package multisig drives the real multi-signature wallet contract (register / vote) through the real
 // Chain.UpdateState with real BLS threshold key shares (C21): valid, duplicate, unauthorised, badly
-// signed, incompatible and expired votes on several wallet configurations.  After every transaction it
+// signed, incompatible, expired and lagging (created before, included at/after a clock boundary such as the
+// expiry) votes on several wallet configurations.  After every transaction it
 // logs the stored wallet and proposal, the OBSERVED balance changes of wallet and recipient, and the
 // results of re-verifying the vote's share signature and the stored threshold signature with the real
 // SignedTransfer.VerifySignature.
@@ -61,6 +62,24 @@ type drv struct {
 	sc      string
 	wallets []*wallet
 	last    *world.Snap
+	lag     int64 // the next vote transaction's own creation date is this many seconds BEFORE its block's (0: equal)
+}
+
+// maxLag: a transaction is accepted into a block while its creation date is within the chain's transaction time
+// tolerance of the block's (server_chain.transaction.timeout, default 30 s); lagging votes stay inside it.
+const maxLag = 29
+
+// lateSecs: how long before its block a `late` vote of a TLC behaviour was created.
+const lateSecs = 7
+
+// txnTime is the creation date the next vote transaction declares (consumes d.lag); 0 = the block's.
+func (d *drv) txnTime() zcommon.Timestamp {
+	lag := d.lag
+	d.lag = 0
+	if lag <= 0 {
+		return 0
+	}
+	return d.w.Now - zcommon.Timestamp(lag)
 }
 
 func init() { common.Register("multisig", Run) }
@@ -280,6 +299,12 @@ func (d *drv) emit(res world.Result, op, kind string, wl *wallet, by *world.Key,
 		}
 	}
 	now := int64(w.Cur.CreationDate)
+	lag := int64(0)
+	if res.Txn != nil {
+		lag = now - int64(res.Txn.CreationDate)
+	}
+	// the vote's own creation date is before the addressed proposal's expiry, its block's is not
+	straddle := op == "vote" && pre.Exists && now-lag < pre.Expiration && pre.Expiration <= now
 	m := rec.M{"ev": "Msig", "op": op, "kind": kind, "wallet": wl.name, "wkind": wl.kind, "by": w.Name(by.ID), "prop": propID,
 		"key": wl.name + "/" + propID, "now": now - d.t0, "class": res.Class,
 		"registered": registered, "t": int64(stored.NumRequired), "n": int64(len(stored.SignerPublicKeys)), "signers": signers,
@@ -324,9 +349,16 @@ func (d *drv) emit(res world.Result, op, kind string, wl *wallet, by *world.Key,
 	m["rdelta"] = diff(w.Balance(tr.ToClientID), rPre)
 	m["thr_sig_ok"] = thrOK
 	m["overflow"] = over
+	m["lag"] = lag
+	m["straddle"] = straddle
 	shape := op + "/" + kind + "/" + res.Class
 	if m["executed_here"].(bool) {
 		shape += "/exec"
+	}
+	if straddle {
+		shape += "/lag_over_expiry"
+	} else if lag > 0 && op == "vote" {
+		shape += "/lag"
 	}
 	d.rc.Emit(m, shape, res.Class == "ok")
 }
@@ -387,7 +419,7 @@ func (d *drv) vote(wl *wallet, by, signKey *world.Key, propID string, tr state.T
 	v := multisigsc.Vote{ProposalID: propID, Transfer: tr, Signature: sig}
 	pre := d.readProposal(wl.group.ID, propID)
 	wPre, rPre := w.Balance(wl.group.ID), w.Balance(tr.ToClientID)
-	res := d.exec(world.TxnSpec{From: by, To: d.sc, Type: transaction.TxnTypeSmartContract, Fn: "vote", Input: v}, wl, propID)
+	res := d.exec(world.TxnSpec{From: by, To: d.sc, Type: transaction.TxnTypeSmartContract, Fn: "vote", Input: v, Time: d.txnTime()}, wl, propID)
 	d.emit(res, "vote", kind, wl, by, propID, tr, sig, pre, wPre, rPre)
 	return res
 }
@@ -401,12 +433,14 @@ type absStep struct {
 		To  string `json:"to"`
 		Amt uint64 `json:"amt"`
 	} `json:"tr"`
-	Ok bool  `json:"ok"`
-	T  int64 `json:"t"`
+	Ok   bool  `json:"ok"`
+	Late bool  `json:"late"` // the vote was created a few seconds before its block (model time units are half weeks)
+	T    int64 `json:"t"`
 }
 
 // behaviour replays one walk of Multisig.tla (T = 2) on wallet W1: s1..s3 = its signers, x = client c3,
-// r1, r2 = clients c1, c2.
+// r1, r2 = clients c1, c2.  A model time unit is half a week and the proposal lives exactly two units, so a `late`
+// vote at the model time of the expiry is a transaction created before the expiry in a block created at it.
 func (d *drv) behaviour(id int, raw json.RawMessage) {
 	var steps []absStep
 	if err := json.Unmarshal(raw, &steps); err != nil {
@@ -428,6 +462,9 @@ func (d *drv) behaviour(id int, raw json.RawMessage) {
 			signKey, kind := by, "own_sig"
 			if !s.Ok { // a signature that does not verify under the sender's registered key
 				signKey, kind = wl.signers[(indexOf(wl, by)+1)%wl.n], "other_sig"
+			}
+			if s.Late {
+				d.lag = lateSecs
 			}
 			d.vote(wl, by, signKey, "p1", tr, kind)
 		default:
@@ -478,8 +515,31 @@ func (d *drv) random(id int, a common.Args) {
 	props := []string{"p1", "p1", "p2", "p3"}
 	rcps := []string{w.Clients[0].ID, w.Clients[1].ID}
 	for i := 0; i < a.Steps; i++ {
+		var lateWl *wallet // a vote created just before this wallet's proposal expires lands in a block at/after the expiry
+		latePr, lateBy := "", int64(0)
 		if x := r.Intn(100); x < 25 {
 			d.at(d.now() + d.pick(1, 60, 3600, week/2, week-10, week-5, week, week+1, 2*week))
+		} else if x < 35 {
+			// the next block is created at / a few seconds after the expiry of a live proposal
+			type lp struct {
+				wl *wallet
+				id string
+				e  int64
+			}
+			var lives []lp
+			for _, wl := range wls {
+				for _, id := range props[1:] {
+					if p := d.readProposal(wl.group.ID, id); p.Exists && int64(w.Cur.CreationDate) < p.Expiration {
+						lives = append(lives, lp{wl, id, p.Expiration - d.t0})
+					}
+				}
+			}
+			if len(lives) > 0 {
+				c := lives[r.Intn(len(lives))]
+				lateBy = d.pick(0, 0, 1, 3, 10)
+				d.at(c.e + lateBy)
+				lateWl, latePr = c.wl, c.id
+			}
 		}
 		wl := wls[r.Intn(len(wls))]
 		if r.Intn(40) == 0 {
@@ -487,9 +547,21 @@ func (d *drv) random(id int, a common.Args) {
 			continue
 		}
 		propID := props[r.Intn(len(props))]
+		// transaction clock: mostly the block's; sometimes the vote was created up to maxLag seconds before its block
+		// (within the chain's transaction time tolerance)
+		d.lag = 0
+		if lateWl != nil && r.Intn(4) != 0 {
+			wl, propID = lateWl, latePr
+			d.lag = lateBy + d.pick(1, 2, 5, 15)
+		} else if r.Intn(100) < 12 {
+			d.lag = d.pick(1, 5, 10, maxLag)
+		}
+		if d.lag > maxLag {
+			d.lag = maxLag
+		}
 		cur := d.readProposal(wl.group.ID, propID)
 		tr := state.Transfer{ClientID: wl.group.ID, ToClientID: rcps[r.Intn(len(rcps))], Amount: currency.Coin(d.pick(1, 500, 2000, 2000, 2000))}
-		live := cur.Exists && int64(w.Cur.CreationDate) < cur.Expiration
+		live := cur.Exists && int64(w.Cur.CreationDate)-d.lag < cur.Expiration // as the voter saw it when he created the vote
 		if live && r.Intn(100) < 85 { // mostly agree with the live proposal
 			tr = state.Transfer{ClientID: cur.From, ToClientID: cur.To, Amount: currency.Coin(cur.Amount)}
 		}
@@ -506,7 +578,7 @@ func (d *drv) random(id int, a common.Args) {
 			v := multisigsc.Vote{ProposalID: propID, Transfer: tr, Signature: sig}
 			pre := d.readProposal(wl.group.ID, propID)
 			wPre, rPre := w.Balance(wl.group.ID), w.Balance(tr.ToClientID)
-			res := d.exec(world.TxnSpec{From: signer, To: d.sc, Type: transaction.TxnTypeSmartContract, Fn: "vote", Input: v}, wl, propID)
+			res := d.exec(world.TxnSpec{From: signer, To: d.sc, Type: transaction.TxnTypeSmartContract, Fn: "vote", Input: v, Time: d.txnTime()}, wl, propID)
 			d.emit(res, "vote", "sig_of_other_transfer", wl, signer, propID, tr, sig, pre, wPre, rPre)
 		case x < 84: // a stranger, signing with his own key
 			st := w.Clients[r.Intn(len(w.Clients))]
